@@ -28,4 +28,4 @@ if [ "$changed" != "1" ] || ! grep -q '^[[:space:]]*marchingSectionSize[[:space:
 fi
 printf '{"Replace": {"%s": "%s"}}\n' "$src" "$patched" > "$ovdir/overlay.json"
 cd "$VERIF/harness"
-go build $MODFLAG -overlay "$ovdir/overlay.json" -o "$out" ./cmd/c09
+go build -trimpath $MODFLAG -overlay "$ovdir/overlay.json" -o "$out" ./cmd/c09
